@@ -343,7 +343,13 @@ def run_rearm(res: Result, tier):
                 jobs.append((scen, script, p, t, restart))
     routs = machine.run_rust([(s_, sc) for s_, sc, _p, _t, _r in jobs], key_codes())
     for (scen, script, p, t, restart), (robs, rerr, _raw) in zip(jobs, routs):
-        pobs = None if restart else machine.PyMachine(scen).run(script)
+        if restart:
+            # Python: the emulator's own restart is PCE500Emulator.reset() (the program then runs its reset code again and
+            # re-enables the main timer's interrupt) - at the same points, in particular while the handler is running
+            pscript = [op if op[0] != "treset" else ("pyreset",) for op in script if op[0] != "wimem"]
+            pobs = machine.PyMachine(scen).run(pscript)
+        else:
+            pobs = machine.PyMachine(scen).run(script)
         for model, obs in (("py", pobs), ("rs", robs)):
             if obs is None:
                 continue
